@@ -26,7 +26,7 @@ S1 = """<?xml version="1.0"?>
 <xsl:stylesheet version="1.0" %s>
 <xsl:output method="xml" omit-xml-declaration="yes"/>
 <xsl:param name="p" select="'dflt'"/>
-<xsl:template match="/"><out p="{$p}"><xsl:apply-templates select="doc/item"/></out></xsl:template>
+<xsl:template match="/"><out p="{$p}" d="{1 div $p}"><xsl:apply-templates select="doc/item"/></out></xsl:template>
 <xsl:template match="item"><i n="{@n}"><xsl:value-of select="."/></i></xsl:template>
 </xsl:stylesheet>
 """ % XSL
@@ -111,6 +111,15 @@ S4 = """<?xml version="1.0"?>
 <xsl:param name="p" select="7"/>
 <xsl:template match="/">
 <xsl:for-each select="doc/item"><xsl:variable name="q" select="@n"/>f(<xsl:value-of select="$q"/>)=<xsl:value-of select="ext:f($q + number($p = 'stop'))"/>;</xsl:for-each>p=<xsl:value-of select="$p"/>;fp=<xsl:value-of select="ext:f($p)"/></xsl:template>
+</xsl:stylesheet>
+""" % XSL
+
+# S9: calls ext:g, a second function of the namespace of ext:f (installing / uninstalling one must not touch the other)
+S9 = """<?xml version="1.0"?>
+<xsl:stylesheet version="1.0" %s xmlns:ext="http://verif.example/c06" exclude-result-prefixes="ext">
+<xsl:output method="text"/>
+<xsl:param name="p" select="7"/>
+<xsl:template match="/">fa=<xsl:value-of select="function-available('ext:f')"/>;ga=<xsl:value-of select="function-available('ext:g')"/>;ha=<xsl:value-of select="function-available('ext:h')"/>;g=<xsl:value-of select="ext:g(count(doc/item))"/>;d=<xsl:value-of select="1 div $p"/></xsl:template>
 </xsl:stylesheet>
 """ % XSL
 
@@ -277,10 +286,13 @@ DX = """<?xml version="1.0"?>
 """
 
 POOL = {
-    "ss": {"S1": S1, "S2": S2, "S3": S3, "S4": S4, "S5": S5, "S6": S6, "S7": S7, "S8": S8, "SD1": SD1, "SD2": SD2, "SE": SE, "SU": SU, "SM": SM, "SX": SX, "SV": SV},
+    "ss": {"S1": S1, "S2": S2, "S3": S3, "S4": S4, "S5": S5, "S6": S6, "S7": S7, "S8": S8, "S9": S9, "SD1": SD1, "SD2": SD2, "SE": SE, "SU": SU, "SM": SM, "SX": SX, "SV": SV},
     "src": {"D1": D1, "D2": D2, "DX": DX},
     "vals": {"str": {"form": "expr", "text": "'stop'"},
              "num": {"form": "num", "num": 2},
-             "obj": {"form": "obj", "text": "obj"}},
-    "fns": {"f": {"ns": "http://verif.example/c06", "name": "f"}},
+             "obj": {"form": "obj", "text": "obj"},
+             "nz": {"form": "num", "num": 0, "sign": "-"},        # -0.0 and +0.0 through the double overload: 1 div $p tells them apart
+             "pz": {"form": "num", "num": 0}},
+    "fns": {"f": {"ns": "http://verif.example/c06", "name": "f"}, # g, h: installed process-wide (installExternalFunctionGlobal), in the namespace of f
+            "g": {"ns": "http://verif.example/c06", "name": "g", "scope": "global"}, "h": {"ns": "http://verif.example/c06", "name": "h", "scope": "global"}},
 }
